@@ -1457,6 +1457,8 @@ def builtin_summary(I, cal, args, node, st):
             return [Out('val', ('vec', arr[0][1]), st)]
     if cal.endswith('alloc::vec::Vec::<T>::new') or cal.endswith('alloc::vec::Vec::<T>::with_capacity'):
         return [Out('val', ('vec', ()), st)]
+    if cal == 'alloc::string::String::new' and not args:
+        return [Out('val', ('lit', ''), st)]
     if cal.endswith('alloc::boxed::Box::<T>::new') and args:
         return [Out('val', args[0], st)]
     if cal == 'core::iter::traits::iterator::Iterator::map' and len(args) == 2 and args[1][0] in ('closure', 'fn'):
